@@ -57,6 +57,14 @@ CHECKS['C09'] = dict(cat='other',
     tech='CrossHair/z3 over the real Project/SourceModule cache logic with symbolic modification times and an in-memory file system; differential: long-lived project under check_changes() vs a fresh Project',
     text='Bounded symbolic execution: histories of 1..2 rewrites (file and content variant enumerated) over a three-module project with star-import / attribute / from-import / re-export edges, warm-up requests in between; the modification times are solver integers constrained only by "an edit changes the mtime" (backwards and repeating clocks included). Every final request (assist, location, lint) must equal the same request on a new Project. Candidates are replayed on a real directory with os.utime.',
     note='file access stubbed in memory; ast.parse/extract run untraced; deletions, __init__ removal, shadowing outside; one known finding (module created after its importer was analysed) is carved out of the query by its history shape.', ref='3/C09')
+CHECKS['C06'] = dict(cat='other',
+    tech='CrossHair/z3 solver-enumerated class hierarchies (shape, member kinds and names, import form, queried attribute, access path) through the real assist()/location(); oracle = the classes executed by CPython (__mro__, vars())',
+    text='Solver-enumerated (E) only: each path is one concrete generated project. Within the stated finite family the attribute proposals contain every source-defined attribute along the real MRO (and self-assigned attributes for instances), and go-to-definition lands on an instance assignment if there is one, otherwise on the first class of the real MRO that defines the attribute.',
+    note='no symbolic variable survives the parser; in-memory project files; metaclasses, __getattr__, __slots__, setattr, data-descriptor precedence outside.', ref='3/C06')
+CHECKS['C10'] = dict(cat='other',
+    tech='CrossHair/z3 solver-enumerated (scope kind, binding kind, name shape, read flag) constructions through the real lint(); oracle = the exemption rule of the property evaluated on the construction',
+    text='Solver-enumerated (E) only: ~370 constructed modules covering 21 binding kinds x 6 scope kinds x name shape x read/never-read; the W01/W02 entries (code, message, line, column) must equal exactly what the rule gives and nothing else may be reported as unused.',
+    note='each path one concrete module; locals(), global/nonlocal redirection and real files outside.', ref='3/C10')
 NA = {}
 
 def main():
